@@ -47,6 +47,10 @@ pub fn run(a: &Args, rep: &mut Report) {
         "C02" => c02(a, rep),
         "C03" => c03(a, rep),
         "C04" => c04(a, rep),
+        "C06" => crate::p_dim::c06(a, rep),
+        "C08" => crate::p_dim::c08(a, rep),
+        "C16" => crate::p_nn::c16(a, rep),
+        "C17" => crate::p_nn::c17(a, rep),
         "C07" => crate::p_struct::c07(a, rep),
         "C12" => crate::p_struct::c12(a, rep),
         "C13" => crate::p_struct::c13(a, rep),
@@ -93,6 +97,10 @@ pub fn run_one(id: &str, c: &Case, rep: &mut Report) {
         "C02" => one_c02(id, c, rep),
         "C03" => one_c03(id, c, rep),
         "C04" => one_c04(id, c, rep),
+        "C06" => crate::p_dim::one_c06(id, c, rep),
+        "C08" => crate::p_dim::one_c08(id, c, rep),
+        "C16" => crate::p_nn::one_c16(id, c, rep),
+        "C17" => crate::p_nn::one_c17(id, c, rep),
         "C07" => crate::p_struct::one_c07(id, c, rep),
         "C12" => crate::p_struct::one_c12(id, c, rep),
         "C13" => crate::p_struct::one_c13(id, c, rep),
